@@ -4,6 +4,7 @@ import OV.Model.C08Repl
 import OV.Model.C08Reduce
 import OV.Model.C08IntArith
 import OV.Model.C08Creation
+import OV.Model.C08Attr
 import OV.Gen.C08Trace
 import OV.Lemmas.C08
 /-!
@@ -309,6 +310,81 @@ theorem aten_stack_two_agrees (a b : Nat) :
     stack.model [[a, b], [a, b]] 1 = stack.spec [[a, b], [a, b]] 1
     ∧ stack.model [[a, b], [a, b]] (-1) = stack.spec [[a, b], [a, b]] (-1) := by
   constructor <;> simp [stack.model, stack.spec, unsqueeze1, normAxis, insertOne, concatOp, sameExcept, setAt]
+
+/-! ## pool / conv / pad attribute adjustment -/
+
+open OV.C08.attr in
+/-- `_adjust_attributes_of_avg_pool`: for **every** pooling rank `k ≥ 1` and every padding tuple of length `k`,
+ONNX `pads` is `[p_1..p_k, p_1..p_k]` — all begins, then all ends. -/
+theorem avg_pool_pads_layout (k : Nat) (ks st : IntOrList) (p : List Int) (hp : p.length = k) (hk : 1 ≤ k) :
+    (avgPool k ks st (.list p)).2.2 = p ++ p :=
+  OV.Lemmas.C08.avg_pads_layout k ks st p hp hk
+
+open OV.C08.attr in
+/-- … an int or a 1-element padding is expanded to `k` begins and `k` ends, for every `k`. -/
+theorem avg_pool_pads_scalar (k : Nat) (ks st : IntOrList) (v : Int) :
+    (avgPool k ks st (.int v)).2.2 = List.replicate k v ++ List.replicate k v
+    ∧ (avgPool k ks st (.list [v])).2.2 = List.replicate k v ++ List.replicate k v :=
+  OV.Lemmas.C08.avg_pads_scalar k ks st v
+
+open OV.C08.attr in
+/-- `_adjust_attributes_of_max_pool`, `k ≤ 3` (longer paddings are passed through unchanged by the code). -/
+theorem max_pool_pads_layout (k : Nat) (ks st dil : IntOrList) (p : List Int) (hp : p.length = k) (hk : 1 ≤ k) (hk3 : k ≤ 3) :
+    (maxPool k ks st (.list p) dil).2.2.1 = p ++ p :=
+  OV.Lemmas.C08.max_pads_layout k ks st dil p hp hk hk3
+
+open OV.C08.attr in
+theorem max_pool_pads_scalar (k : Nat) (ks st dil : IntOrList) (v : Int) :
+    (maxPool k ks st (.int v) dil).2.2.1 = List.replicate k v ++ List.replicate k v
+    ∧ (maxPool k ks st (.list [v]) dil).2.2.1 = List.replicate k v ++ List.replicate k v :=
+  OV.Lemmas.C08.max_pads_scalar k ks st dil v
+
+open OV.C08.attr in
+/-- With that layout, spatial axis `i` reads `(pads[i], pads[i+k]) = (p_i, p_i)`. -/
+theorem pool_axis_pads (p : List Int) (i : Nat) (hi : i < p.length) :
+    getI (p ++ p) i = getI p i ∧ getI (p ++ p) (i + p.length) = getI p i :=
+  OV.Lemmas.C08.axis_pads p i hi
+
+open OV.C08.attr in
+/-- … and the ONNX pooling output size with begin = end = `p` is PyTorch's `pooling_output_shape`
+(floor / ceil of `(n + 2p - d(k-1) - 1)/s`, plus 1, with the ceil-mode correction), all values. -/
+theorem pool_out_size_agrees (ceil : Bool) (n k s p d : Int) :
+    poolOut ceil n k s p p d = torchPoolOut ceil n k s p d :=
+  OV.Lemmas.C08.pool_out_agrees ceil n k s p d
+
+open OV.C08.attr in
+/-- `aten_convolution`: `pads = [*padding, *padding]` for every full-length padding; int / 1-element expansion. -/
+theorem conv_pads_layout (imageD : Nat) (st dil : IntOrList) (p : List Int) (hp : p.length = imageD) (h2 : 2 ≤ imageD) :
+    (convolution imageD st (.list p) dil).2.1 = p ++ p :=
+  OV.Lemmas.C08.conv_pads_layout imageD st dil p hp h2
+
+open OV.C08.attr in
+theorem conv_pads_scalar (imageD : Nat) (st dil : IntOrList) (v : Int) :
+    (convolution imageD st (.int v) dil).2.1 = List.replicate imageD v ++ List.replicate imageD v
+    ∧ (convolution imageD st (.list [v]) dil).2.1 = List.replicate imageD v ++ List.replicate imageD v :=
+  OV.Lemmas.C08.conv_pads_scalar imageD st dil v
+
+open OV.C08.attr in
+/-- `Conv` / `ConvTranspose` output size with symmetric pads = PyTorch's formulas. -/
+theorem conv_out_size_agrees (n k s p d op : Int) :
+    convOut n k s p p d = torchConvOut n k s p d ∧ convTOut n k s p p d op = torchConvTOut n k s p d op :=
+  ⟨OV.Lemmas.C08.conv_out_agrees n k s p d, OV.Lemmas.C08.convT_out_agrees n k s p d op⟩
+
+open OV.C08.attr in
+/-- `aten_constant_pad_nd` / `aten_pad` / `reflection_pad*` / `replication_pad*` (`_process_padding`), every rank
+and every number of padded axes: PyTorch's `(last_begin, last_end, …)` becomes ONNX's begins in axis order
+(zeros for the unpadded leading axes) followed by ends in axis order. -/
+theorem pad_layout_begins_then_ends (rank : Nat) (ps : List (Int × Int)) (hm : ps.length ≤ rank) :
+    padLayout rank (flatPairs ps)
+      = (List.replicate (rank - ps.length) 0 ++ ps.reverse.map Prod.fst)
+        ++ (List.replicate (rank - ps.length) 0 ++ ps.reverse.map Prod.snd) :=
+  OV.Lemmas.C08.pad_layout rank ps hm
+
+/-- FINDING C08-pool-len1-attr: `avg_pool2d(x[2,3,4], (3,1), stride=(3,))` — PyTorch broadcasts the 1-tuple,
+the adjuster passes `strides=[3]` to a 2-D `AveragePool`. -/
+theorem pool_len1_stride_refuted :
+    avg_pool.model 2 [2, 3, 4] (.list [3, 1]) (.list [3]) (.list [0, 0]) true = none
+    ∧ avg_pool.spec 2 [2, 3, 4] (.list [3, 1]) (.list [3]) (.list [0, 0]) true = some [2, 1, 2] := by decide
 
 /-! ## reductions' bookkeeping -/
 
